@@ -2388,7 +2388,8 @@ Vgetnext(int32 vkey, /* IN: vgroup key */
     if (id == -1) {
         if ((vg->tag[0] == DFTAG_VG) || (vg->tag[0] == VSDESCTAG))
             HGOTO_DONE((int32)vg->ref[0]); /* id of first entry */
-    }                                      /* end if */
+        HGOTO_DONE(FAIL); /* -1 is no member's id: do not search for it as ref 65535 */
+    } /* end if */
 
     /* look in vgroup for 'id' */
     for (u = 0; u < (unsigned)vg->nvelt; u++) { /* only look for vgroups? */
